@@ -251,7 +251,18 @@ def _campaign(ctx, scratch_root, mod_name, mod, pid, a, seed, t0):
                 else:
                     merged.count('corpus_replayed')
                     merged.violations.extend(r['violations'])
-        for r in pool.imap_unordered(_run_shard, [(mod_name, s, deadline) for s in specs]):
+        it = pool.imap_unordered(_run_shard, [(mod_name, s, deadline) for s in specs])
+        hard_deadline = deadline + max(300, budget)  # shards stop generating at `deadline`; this only catches hangs
+        while True:
+            try:
+                r = it.next(timeout=max(1.0, hard_deadline - time.time()))
+            except StopIteration:
+                break
+            except mp.TimeoutError:
+                pool.terminate()
+                print(f'HARNESS-ERROR property={pid} shard(s) still running {int(time.time() - t0)} s after start '
+                      f'(budget {budget} s): inconclusive, not a violation')
+                return 2
             if not r['ok']:
                 errors.append(r['err'])
                 continue
